@@ -61,19 +61,18 @@ func normalizedString(r RR) string {
 
 	// find the first non-escaped tab, then another, so we capture where the TTL lives.
 	esc := false
-	ttlStart, ttlEnd := 0, 0
-	for i := 0; i < len(b) && ttlEnd == 0; i++ {
+	// -1: not seen yet (0 is a position: a record without an owner name starts with the tab).
+	ttlStart, ttlEnd := -1, -1
+	for i := 0; i < len(b) && ttlEnd < 0; i++ {
 		switch {
 		case b[i] == '\\':
 			esc = !esc
 		case b[i] == '\t' && !esc:
-			if ttlStart == 0 {
+			if ttlStart < 0 {
 				ttlStart = i
 				continue
 			}
-			if ttlEnd == 0 {
-				ttlEnd = i
-			}
+			ttlEnd = i
 		case b[i] >= 'A' && b[i] <= 'Z':
 			// A letter with a backslash in front (\A) is still that letter.
 			b[i] += 32
@@ -83,6 +82,10 @@ func normalizedString(r RR) string {
 		}
 	}
 
+	if ttlEnd < 0 {
+		// no TTL field found: nothing to remove.
+		return string(b)
+	}
 	// remove TTL.
 	copy(b[ttlStart:], b[ttlEnd:])
 	cut := ttlEnd - ttlStart
